@@ -4,6 +4,7 @@
 pub mod common;
 pub mod discount;
 pub mod gt;
+pub mod gtorder;
 pub mod referral;
 
 use simcore::{CheckSpec, Part};
@@ -32,7 +33,7 @@ pub fn registry(property: &str) -> Option<CheckSpec> {
         "C30" => Some(CheckSpec {
             property: "C30",
             level: "exploration",
-            parts: vec![Part::new(gt::GtSim, 20_000, 400_000)],
+            parts: vec![Part::new(gt::GtSim, 20_000, 400_000), Part::new(gtorder::GtOrderSim, 2_000, 40_000)],
             assumptions: vec![
                 "exchange windows other than 86400 s are forged into the store account because gt_set_exchange_time_window is compiled out without the test-only feature".into(),
                 "a single mint crosses at most 3000 grow steps (the program loops once per step)".into(),
